@@ -69,7 +69,7 @@ def run(ctx):
     ctx.rule = ("connected graphs from the graph stage and arbitrary symmetric positive graphs at overall weight scales 1e-3..30, hub graphs with very uneven degrees, and the smallest size n = dim + 2 (n 3..150, dim 1..10): the Laplacian handed "
                 "to the eigen-solver (recorded by a harness-side wrapper) vs the Lean model's entries; a-posteriori eigen-check of the real "
                 "output against dense eigh (residual, orthogonality to sqrt(deg), the (j+1)-th smallest eigenvalue), skipping eigengaps "
-                "< 1e-4 and solver fallbacks; the model's argsort/selection vs numpy; disconnected graphs with component profiles "
+                "< 1e-4 (a solver fall-back to a random layout is checked like any other output); the model's argsort/selection vs numpy; disconnected graphs with component profiles "
                 "{singletons, pairs, sizes < 2*dim, mixed}: shape, finiteness, every row assigned; non-trivial = dim >= 2 and n >= 10")
     ctx.assumptions += ["ARPACK / LOBPCG numerics are an assumed contract, validated per run by the residual check", "ties between eigenvalues are skipped"]
     drv = Driver()
@@ -101,8 +101,9 @@ def run(ctx):
             ctx.violation("exception", f"{fn.__name__} raised {type(e).__name__}: {e}", case)
             continue
         if any("Spectral initialisation failed" in str(w.message) for w in wl):
-            ctx.skip("solver fallback fired")
-            continue
+            # the random fall-back layout is not what the property promises for a connected graph: it goes through the eigen-check
+            # below like any other output (and fails it unless the columns happen to be the right eigenvectors)
+            ctx.bin("solver_fallback", f"n={n} dim={dim}")
         E = np.asarray(E)
         if E.shape != (n, dim) or not np.all(np.isfinite(E)):
             ctx.violation("shape", f"layout shape {E.shape}, finite={bool(np.all(np.isfinite(E)))}", case)
